@@ -888,6 +888,41 @@ impl World {
         m.threshold_changed = true;
     }
 
+    /// Whole-configuration replacement (the setters are bypassed): default, save a clone, assign the clone back.
+    #[cfg(feature = "auto")]
+    pub fn cfg_replace(&self, mode: i64) {
+        match mode.rem_euclid(3) {
+            0 => {
+                if compat::cfg_assign(Default::default()) == CfgAccess::Ok {
+                    let mut m = self.m.borrow_mut();
+                    m.cfg = Knobs { auto: true, buffered: 0, permille: 100 };
+                    m.cfg_known = true;
+                    m.last_threshold = 0;
+                }
+            }
+            1 => {
+                if let Some(c) = compat::cfg_clone() {
+                    let k = self.m.borrow().cfg;
+                    *self.saved_cfg.borrow_mut() = Some((c, k));
+                }
+            }
+            _ => {
+                let saved = self.saved_cfg.borrow().clone();
+                if let Some((c, k)) = saved {
+                    if compat::cfg_assign(c) == CfgAccess::Ok {
+                        let mut m = self.m.borrow_mut();
+                        m.cfg = k;
+                        m.cfg_known = true;
+                        m.last_threshold = 0;
+                    }
+                }
+            }
+        }
+        self.stats.borrow_mut().bump("configuration_replaced_wholesale");
+    }
+    #[cfg(not(feature = "auto"))]
+    pub fn cfg_replace(&self, _mode: i64) {}
+
     pub fn apply_knobs(&self, k: &Knobs) {
         if !HAS_AUTO {
             return;
